@@ -1,0 +1,30 @@
+//go:build verif
+
+// Contracts for govc (/verif): C32 — base58 as used by the address codec. Comment-only file.
+//
+// The radix conversion itself (big.Int loops, non-linear) is NOT verified functionally: Encode/Decode are described by two
+// uninterpreted functions, and that they are inverse to each other is ASSUMED (the two axioms below).
+
+package base58
+
+//@ -- EncodeOf(c): the string Encode returns for the byte string c.  DecodeOf(t): the byte string Decode returns for the string t.
+//@ uninterp EncodeOf(c mathint) string
+//@ uninterp DecodeOf(t string) mathint
+
+//@ -- ASSUMED: Decode(Encode(b)) == b for every byte string b
+//@ axiom @C32 forall c mathint :: {EncodeOf(c)} DecodeOf(EncodeOf(c)) == c
+//@ -- ASSUMED (canonical form): a string that decodes to a NON-EMPTY byte string is the encoding of that byte string
+//@ -- (Decode returns the empty string for every input containing a character outside the alphabet; a non-empty input over the
+//@ -- alphabet decodes to: one zero byte per leading '1', then the big-endian bytes of the number, which Encode maps back to the
+//@ -- same leading '1's and the same digits)
+//@ axiom @C32 forall t string :: {DecodeOf(t)} blen(DecodeOf(t)) != 0 ==> EncodeOf(DecodeOf(t)) == t
+
+//@ -- (moved here from zz_contracts_c05_verif.go) total, no effect on existing memory; the result is EncodeOf of the content
+//@ assume func Encode(b)
+//@   modifies nothing
+//@   ensures result == EncodeOf(seq(b))
+
+//@ -- total, no effect on existing memory; the result is a new slice holding DecodeOf of the string
+//@ assume func Decode(b)
+//@   modifies nothing
+//@   ensures fresh(result) && seq(result) == DecodeOf(b)
